@@ -64,21 +64,22 @@ func c09Corpus() []c09Input {
 	// depth
 	// (printer.Print is far from linear in the nesting depth -- 800 levels take half a minute -- so the
 	// pipeline entries, which also print, get 250 levels and the deeper ones skip the printer)
-	pipeline("{"+c09Nest("a{", "id", "}", 250)+"}", "deep-selection")
+	pipeline("{"+c09Nest("a{", "id", "}", 150)+"}", "deep-selection")
 	noprint("{"+c09Nest("a{", "id", "}", 500)+"}", "deep-selection")
 	direct("{"+c09Nest("a{", "id", "}", 500)+"}", "deep-selection")
-	pipeline("{ s(ll: "+c09Nest("[", "1", "]", 500)+") }", "deep-list-literal")
-	pipeline("{ s(o: "+c09Nest("{c: ", "{a: 1}", "}", 500)+") }", "deep-object-literal")
-	pipeline("{ any(v: "+c09Nest("[", "1", "]", 1000)+") }", "deep-list-literal")
+	noprint("{ s(ll: "+c09Nest("[", "1", "]", 500)+") }", "deep-list-literal")
+	noprint("{ s(o: "+c09Nest("{c: ", "{a: 1}", "}", 300)+") }", "deep-object-literal")
+	pipeline("{ s(o: "+c09Nest("{c: ", "{a: 1}", "}", 100)+") }", "deep-object-literal")
+	pipeline("{ any(v: "+c09Nest("[", "1", "]", 500)+") }", "deep-list-literal")
 	pipeline("query ($v: "+c09Nest("[", "Int", "]", 500)+") { s }", "deep-type")
-	pipeline("{"+c09Nest("... {", "id", "}", 250)+"}", "deep-inline")
+	pipeline("{"+c09Nest("... {", "id", "}", 150)+"}", "deep-inline")
 	noprint("{"+c09Nest("... {", "id", "}", 500)+"}", "deep-inline")
 	pipeline("{ s"+strings.Repeat(" @skip(if: false)", 500)+" }", "many-directives")
 	pipeline(strings.Repeat("{", 100*1024), "100KB-braces", "unterminated")
 	pipeline(strings.Repeat("[", 100*1024), "100KB-brackets")
-	pipeline("{ s(ll: "+strings.Repeat("[", 20*1024)+") }", "unterminated", "deep-list-literal")
+	pipeline("{ s(ll: "+strings.Repeat("[", 4*1024)+") }", "unterminated", "deep-list-literal")
 	pipeline("{"+strings.Repeat(" s", 4000)+" }", "wide-selection")
-	noprint("{"+c09Nest("a{", "id", "}", 1000)+"}", "deep-selection")
+	noprint("{"+c09Nest("a{", "id", "}", 500)+"}", "deep-selection")
 	// numbers
 	pipeline(`{ s(f: 1e999, i: 1) }`, "huge-number")
 	pipeline(`{ s(f: -1e999) any(v: 1e999) }`, "huge-number")
